@@ -1031,7 +1031,7 @@ func checkC19(c *ctx) {
 	// (b) random files
 	nSmall, nLong := 250, 40
 	if c.thorough() {
-		nSmall, nLong = 6000, 600
+		nSmall, nLong = 30000, 1200
 	}
 	for i := 0; i < nSmall; i++ {
 		f := c19RandomFile(c.rnd, false)
@@ -1068,7 +1068,7 @@ func checkC19(c *ctx) {
 	// malformed streams
 	nm := 1500
 	if c.thorough() {
-		nm = 40000
+		nm = 200000
 	}
 	c19Malformed(c, d, &impl, nm)
 	c19MalformedFai(c, d, &impl, nm)
